@@ -113,6 +113,28 @@ func checkHeld(scen string, in HeldIn) *mc.Violation {
 	if after := gen.CanonDep(d1); after != in.First.Canon {
 		return mc.V(scen, "structure-exact", in, in.First.Canon, "the first result, looked at again after the second call: "+after)
 	}
+	// the same on ONE object decoded into twice: the relations the caller took from it after the first call are the
+	// caller's, and the object denotes the second field afterwards
+	if in.First.Via == "control" {
+		var d dependency.Dependency
+		var kept []dependency.Relation
+		var ea, eb error
+		if p, msg := mc.Guard(func() {
+			ea = d.UnmarshalControl(in.First.Text)
+			kept = d.Relations
+			eb = d.UnmarshalControl(in.Second.Text)
+		}); p {
+			return mc.V(scen, "parse-returns", in, "no panic", "panic: "+msg)
+		}
+		if ea == nil && eb == nil {
+			if got := gen.CanonDep(&d); got != in.Second.Canon {
+				return mc.V(scen, "structure-exact", in, in.Second.Canon, "second field, decoded into the object that held the first: "+got)
+			}
+			if got := gen.CanonDep(&dependency.Dependency{Relations: kept}); got != in.First.Canon {
+				return mc.V(scen, "structure-exact", in, in.First.Canon, "the relations taken from the object after the first call, looked at again after the second: "+got)
+			}
+		}
+	}
 	// a result belongs to its caller in the other direction too: the caller may overwrite every part of it (resolve a
 	// qualifier, rename, clear a list) and later parses - of the same or of another field - are unaffected
 	var d3, d4 *dependency.Dependency
